@@ -93,6 +93,17 @@ def check(ctx):
                 ok = r is not None and r.kind == "obj" and r.obj is o.obj
                 ctx.ob("R-SELF", f"{p.name}.fit returns self on every path", ok, f"returns {r!r}", ctx.site(P.method(cls, "fit")), p.name)
             _rng(ctx, I, st, o, lo, hi, entry)
+    # constructor arguments that are containers are the caller's objects too: a symbolic index list
+    # (entries of unknown sign) exercises every in-place normalisation a fit could apply to it
+    from ..harness import index
+    from ..terms import V as _V, fresh_id as _fid
+
+    ld_items = [index("ld0"), index("ld1")]
+    ld = _V("list", T("list", *[x.term for x in ld_items]), items=ld_items, orig=frozenset([("in", "low_dim_idx")]), loc=_fid())
+    pd = protocols.Proto("sample.DirectionalConvexHull[caller's index list]", "skmatter.sample_selection.DirectionalConvexHull", {"low_dim_idx": ld}, [("fit", (arr("X", "N", "M"), arr("y", "N")), {})], assume=protocols.assume_default)
+    I, st, o, res = protocols.run(ctx, pd)
+    for meth, r, lo, hi in res:
+        nmut += _pure(ctx, I, lo, hi, f"{pd.name}.{meth}", None)
     for name, q, args, kw, order in protocols.function_protocols():
         I = ctx.interp(order=order)
         st = State()
@@ -124,6 +135,9 @@ def _positive_control(ctx):
     return any(e["kind"] == "mutate" and _in_origins(e["target"]) for e in I.events)
 
 
+RANDOMISED_SPLITTERS = {"KFold", "StratifiedKFold", "ShuffleSplit", "StratifiedShuffleSplit", "RepeatedKFold", "GroupShuffleSplit"}
+
+
 def _rng(ctx, I, st, o, lo, hi, entry):
     rs = None
     if o is not None:
@@ -139,6 +153,14 @@ def _rng(ctx, I, st, o, lo, hi, entry):
             if not ok and tq.has_sym(seed.term, "random_state"):
                 ok = True
             ctx.ob("R-RNG", f"{e.get('short')}: check_random_state seeded from random_state", ok, f"seed = {seed.term!r}", f"{e.get('func')}:{e.get('line')}", entry)
+        elif e["kind"] == "ext-new" and str(e.get("cls", "")).rsplit(".", 1)[-1] in RANDOMISED_SPLITTERS:
+            kwa = e.get("kwargs") or {}
+            sh = kwa.get("shuffle")
+            if sh is None or (sh.has_const and sh.const is False):
+                continue  # deterministic split
+            seed = kwa.get("random_state")
+            ok = seed is not None and ((rs is not None and seed.term == rs.term) or (seed.has_const and seed.const is not None))
+            ctx.ob("R-RNG", f"{e.get('short')}: the shuffling splitter {e.get('cls')} receives the estimator's random_state", ok, f"random_state={None if seed is None else seed.term!r}", f"{e.get('func')}:{e.get('line')}", entry)
         elif e["kind"] == "rng-sink":
             if e["fn"] == "eigsh":
                 continue  # recorded exception: ARPACK start vector, result fixed up to tol=1e-12
